@@ -42,8 +42,9 @@ CNoSuchKey   == [c |-> "no-such-key"]
 CType        == [c |-> "type"]
 CBadOpt      == [c |-> "unsupported-option"]
 CPipeline(cs) == [c |-> "pipeline", cs |-> cs]
-COOM         == [c |-> "oom"]
-CUnspec      == [c |-> "unspec"]    \* outcome left open by the reference (schedule-dependent pipeline)
+OOM(why)     == [c |-> "oom", why |-> why]
+COOM         == OOM("outside the model")
+CUnspec      == [c |-> "unspec", why |-> "schedule-dependent pipeline"]   \* outcome left open by the reference
 \* causes that are not Elvish exceptions: they propagate uncaught to the chunk, which is then skipped
 Skip(c)      == c.c \in {"oom", "unspec"}
 
@@ -202,15 +203,15 @@ IndexRange(ix, n) ==
 Index(v, key) ==
   CASE v.k = "list" ->
          LET ix == ParseIndex(key) IN
-         IF ix.f = "unk" THEN Bad(COOM)
+         IF ix.f = "unk" THEN Bad(OOM("index not in canonical decimal form"))
          ELSE IF ix.f = "notint" THEN Bad(CType)
          ELSE LET rg == IndexRange(ix, Len(v.es)) IN
               CASE rg.r = "elem"  -> Good(v.es[rg.at])
                 [] rg.r = "slice" -> Good(VList(SubSeq(v.es, rg.from, rg.to)))
                 [] rg.r = "err"   -> Bad(rg.c)
-                [] OTHER          -> Bad(COOM)
+                [] OTHER          -> Bad(OOM("Unspecified: slice ..=b with b below -n"))
     [] v.k = "str" ->
-         IF ~Ascii(v.s) THEN Bad(COOM)
+         IF ~Ascii(v.s) THEN Bad(OOM("indexing a non-ASCII string"))
          ELSE LET ix == ParseIndex(key) IN
          IF ix.f = "unk" THEN Bad(COOM)
          ELSE IF ix.f = "notint" THEN Bad(CType)
@@ -224,7 +225,7 @@ Index(v, key) ==
          ELSE LET j == MapFind(v.ps, key, 1) IN
               IF j = 0 THEN Bad(CNoSuchKey) ELSE Good(v.ps[j][2])
     [] v.k \in {"nil", "bool", "num"} -> Bad(CType)           \* not indexable
-    [] OTHER -> Bad(COOM)                                      \* pseudo-maps (fn, exception): not modelled here
+    [] OTHER -> Bad(OOM("indexing a pseudo-map (function, exception)"))
 
 \* Assoc(v, key, val): element assignment / builtin assoc.
 Assoc(v, key, val) ==
